@@ -75,22 +75,24 @@ func (p *parser) parse(src string, out map[string]string, lookupFn LookupFn) err
 //
 // It skips any comment line or non-whitespace character.
 func (p *parser) getStatementStart(src string) string {
-	pos := p.indexOfNonSpaceChar(src)
-	if pos == -1 {
-		return ""
-	}
+	for {
+		pos := p.indexOfNonSpaceChar(src)
+		if pos == -1 {
+			return ""
+		}
 
-	src = src[pos:]
-	if src[0] != charComment {
-		return src
-	}
+		src = src[pos:]
+		if src[0] != charComment {
+			return src
+		}
 
-	// skip comment section
-	pos = strings.IndexFunc(src, isCharFunc('\n'))
-	if pos == -1 {
-		return ""
+		// skip comment section
+		pos = strings.IndexFunc(src, isCharFunc('\n'))
+		if pos == -1 {
+			return ""
+		}
+		src = src[pos:]
 	}
-	return p.getStatementStart(src[pos:])
 }
 
 // locateKeyName locates and parses key name and returns rest of slice
